@@ -82,6 +82,11 @@ CLAIMED["C15"] = dict(
    text="Every C08 fault expression in every calling context and inside every derived-form wrapper (12 wrappers, at top level and inside a procedure) is rendered under every assignment of 5 separators (blank, LF, LF+indent, comment+LF, CRLF) to the first 3 (4) gaps of the failing form, after 0-2 preceding forms; the whole text is evaluated at once. The error must carry a location; for an unbound variable read or a non-procedure it must lie at an occurrence of the offending identifier / at the operator, otherwise inside the failing top-level form; never elsewhere.",
    note="'at' tolerates the implementation's end-of-token convention (start <= position <= end+1); an assignment to an unbound variable is judged as 'inside the failing form' because the syntax tree keeps no position for its identifier (DESIGN 7/C15)",
    design="7/C15")
+CLAIMED["C13"] = dict(
+   technique="explicit-state breadth-first search over importer operation histories for each import configuration, transitions replayed on fresh interpreters against a reference module system",
+   text="For 10 configurations (import graphs P->L, P->L + P->M->L, P->M->L only, L imported twice through different import sets, M before L; libraries as registered sources and as files) all histories of 14 importer operations up to depth 4 (6) are explored breadth-first with deduplication on the reference module system's canonical state; every transition is replayed on a fresh interpreter on a fresh thread and the operation plus 13 probes (unexported internals unbound, the library blind to the importer's definitions, imported names redefinable without affecting the library, one shared instance) must match.",
+   note="reference module system built on refsem: one instance per library per program, library scope = primitives + own imports + own definitions",
+   design="7/C13")
 NOT_YET = "check not built yet (build in progress, see DESIGN.md section 12)"
 NA = {}
 
